@@ -542,6 +542,7 @@ func shrink(text string, pred func(string) bool, budget int) string {
 type failure struct {
 	text, mode, printed, detail string
 	prep, ansi                  bool
+	witness                     bool // one of the fixed reproducers (reported first, unshrunk)
 }
 
 type parseStream struct {
@@ -584,7 +585,7 @@ func (ps *parseStream) one(raw string, prep, ansi bool, origin string, evalOK bo
 	if !utf8.ValidString(raw) {
 		o.Count("text.invalid_utf8")
 	}
-	f := failure{text: raw, mode: mode, prep: prep, ansi: ansi}
+	f := failure{text: raw, mode: mode, prep: prep, ansi: ansi, witness: origin == "witness"}
 	r := tryParse(raw, prep, ansi)
 	sres := scanOp(o, raw, prep, ansi)
 	switch {
@@ -730,6 +731,7 @@ func (ps *parseStream) witnesses() {
 		"select - -1", "select -(-1)", "select - - 1", "select 1 - -1", "select -1", "select + -1", "select - +1", "select -a", "select - -a",
 		"select ! !true", "select !true", "select not not true",
 		"select first_value(a) ignore nulls over (order by b)", "select lag(a) ignore nulls over (order by b)", "select first_value(a) over (order by b)",
+		"select `a b`(1)", "select `abc`(1)",
 		"select 'it''s', \"q\", `a b`, 'a\\'b', 'x\ny'", "select 1; select 2", "select", "", "select 'abc", "select 1 /* c", "select !! true", "select ",
 	} {
 		for m := 0; m < 4; m++ {
@@ -765,16 +767,23 @@ func (ps *parseStream) run(n int) {
 	}
 }
 
-// report: per law, the shortest failing inputs (shrunk), each distinct text once with the modes it was seen in.
+// report: per law, the fixed reproducer (if it failed) and the shortest failing inputs (shrunk), each distinct text
+// once with the modes it was seen in; emitted round-robin over the laws so that every law shows up early.
 func (ps *parseStream) report() {
 	laws := make([]string, 0, len(ps.fails))
 	for l := range ps.fails {
 		laws = append(laws, l)
 	}
 	sort.Strings(laws)
+	per := map[string][]map[string]interface{}{}
 	for _, law := range laws {
 		fs := ps.fails[law]
-		sort.SliceStable(fs, func(i, j int) bool { return len(fs[i].text) < len(fs[j].text) })
+		sort.SliceStable(fs, func(i, j int) bool {
+			if fs[i].witness != fs[j].witness {
+				return fs[i].witness
+			}
+			return len(fs[i].text) < len(fs[j].text)
+		})
 		modes := map[string]map[string]bool{}
 		for _, f := range fs {
 			if modes[f.text] == nil {
@@ -783,9 +792,9 @@ func (ps *parseStream) report() {
 			modes[f.text][f.mode] = true
 		}
 		seen := map[string]bool{}
-		emitted, shrunk := 0, 0
+		shrunk := 0
 		for _, f := range fs {
-			if emitted >= 4 {
+			if len(per[law]) >= 4 {
 				break
 			}
 			if seen[f.text] {
@@ -793,7 +802,7 @@ func (ps *parseStream) report() {
 			}
 			seen[f.text] = true
 			text := f.text
-			if shrunk < 2 {
+			if !f.witness && shrunk < 2 {
 				law, f := law, f
 				text = shrink(f.text, func(s string) bool { return ps.hasLaw(s, f, law) }, 300)
 				shrunk++
@@ -812,7 +821,8 @@ func (ps *parseStream) report() {
 				ms = append(ms, m)
 			}
 			sort.Strings(ms)
-			c := map[string]interface{}{"input": g.text, "mode": g.mode, "seen_in_modes": strings.Join(ms, ","), "detail": g.detail}
+			c := map[string]interface{}{"input": g.text, "mode": g.mode, "seen_in_modes": strings.Join(ms, ","), "detail": g.detail,
+				"occurrences_of_law": ps.o.Stats["law_seen:"+law]}
 			if text != f.text {
 				c["shrunk_from"] = f.text
 			}
@@ -822,8 +832,14 @@ func (ps *parseStream) report() {
 			if g.printed != "" {
 				c["printed"] = g.printed
 			}
-			ps.o.Law(law, c)
-			emitted++
+			per[law] = append(per[law], c)
+		}
+	}
+	for rank := 0; rank < 4; rank++ {
+		for _, law := range laws {
+			if rank < len(per[law]) {
+				ps.o.Law(law, per[law][rank])
+			}
 		}
 	}
 }
